@@ -262,10 +262,18 @@ CACHE_SITES = [
     (IP, 'InitialOperator.linform_vector', 'self.bdr_mesh.gamma_space',
      ('elems', )),
 ]
+# the two indicator caches of the estimator (consulted by C09 only)
+EE_CACHE_SITES = [
+    (EE, 'ErrorEstimator.estimate_weighted_l2', 'self.bdr_mesh.gamma_space',
+     ('elems', )),
+    (EE, 'ErrorEstimator.estimate_sobolev', 'self.bdr_mesh.gamma_space',
+     ('elems', )),
+]
 
 
-def check_cache(prog, report):
-    for file, q, curve, lists in CACHE_SITES:
+def check_cache(prog, report, estimator=False):
+    sites = EE_CACHE_SITES if estimator else CACHE_SITES
+    for file, q, curve, lists in sites:
         fi = prog.func(file, q)
         fn = fi.node
         short = q.split('.')[-1]
@@ -297,15 +305,16 @@ def check_cache(prog, report):
             if isinstance(n, ast.Assign) and keyname and any(
                     isinstance(m, ast.Name) and m.id == keyname
                     for m in ast.walk(n.value)) and text(
-                        n.targets[0]) != keyname:
+                        n.targets[0]) != keyname and fname is None:
                 fname = text(n.targets[0])
         loads = [n for n in ast.walk(fn) if isinstance(n, ast.Call)
                  and text(n.func) == 'np.load']
         saves = [n for n in ast.walk(fn) if isinstance(n, ast.Call)
                  and text(n.func) == 'np.save']
         okf = fname is not None and all(
-            text(c.args[0]) == fname for c in loads + saves) and loads \
-            and saves
+            text(c.args[0]) == fname or (estimator and text(
+                c.args[0]).startswith(fname + '.format('))
+            for c in loads + saves) and loads and saves
         report.check(okf, 'R-cachekey', '%s file name carries the key' %
                      short, fi.where(),
                      'load and save use the file name built from the digest',
@@ -326,8 +335,9 @@ def check_cache(prog, report):
                 'of the cache file name (two problems on one domain share '
                 'the cache directory in the driver)',
                 construct='linform_vector: problem in the file name')
-        # I/O discipline
-        for c in loads:
+        # I/O discipline (the operators' caches; the estimator stores its
+        # indicators without a guard, which is not part of any property)
+        for c in ([] if estimator else loads):
             tr = _enclosing_try(fn, c)
             ok = tr is not None and all(
                 not any(isinstance(m, (ast.Return, ast.Raise))
@@ -342,7 +352,7 @@ def check_cache(prog, report):
                 'np.load sits in a try whose handler swallows every error '
                 'and falls through to recomputation; a hit returns at once',
                 construct='%s: cache load discipline' % short)
-        for c in saves:
+        for c in ([] if estimator else saves):
             tr = _enclosing_try(fn, c)
             ok = tr is not None and all(
                 not any(isinstance(m, (ast.Return, ast.Raise))
@@ -362,23 +372,26 @@ def check_cache(prog, report):
                      'the value stored is the value returned',
                      construct='%s: stored == returned' % short)
     # small inline path of bilform_matrix does not touch the cache
-    fi = prog.func(SL, 'SingleLayerOperator.bilform_matrix')
-    small = None
-    for s in fi.node.body:
-        if isinstance(s, ast.If) and 'N*M<' in text(s.test).replace(' ', ''):
-            small = s
-    ok = small is not None and isinstance(
-        small.body[-1], ast.Return) and not any(
-            isinstance(m, ast.Call) and text(m.func) in ('np.load',
-                                                         'np.save')
-            for s in small.body for m in ast.walk(s))
-    first_cache = min([n.lineno for n in ast.walk(fi.node)
-                       if isinstance(n, ast.Call)
-                       and text(n.func) == 'np.load'] or [10**9])
-    ok = ok and small.lineno < first_cache
-    report.check(ok, 'R-cacheio', 'bilform_matrix inline path', fi.where(),
-                 'the small-size path returns before any cache access',
-                 construct='bilform_matrix: inline path')
+    if not estimator:
+        fi = prog.func(SL, 'SingleLayerOperator.bilform_matrix')
+        small = None
+        for s in fi.node.body:
+            if isinstance(s, ast.If) and 'N*M<' in text(s.test).replace(
+                    ' ', ''):
+                small = s
+        ok = small is not None and isinstance(
+            small.body[-1], ast.Return) and not any(
+                isinstance(m, ast.Call) and text(m.func) in ('np.load',
+                                                             'np.save')
+                for s in small.body for m in ast.walk(s))
+        first_cache = min([n.lineno for n in ast.walk(fi.node)
+                           if isinstance(n, ast.Call)
+                           and text(n.func) == 'np.load'] or [10**9])
+        ok = ok and small.lineno < first_cache
+        report.check(ok, 'R-cacheio', 'bilform_matrix inline path',
+                     fi.where(),
+                     'the small-size path returns before any cache access',
+                     construct='bilform_matrix: inline path')
     # reprs
     for file, cls in ((M, 'Element'), (HI, 'DummyElement')):
         ci = prog.cls(file, cls)
@@ -413,8 +426,12 @@ def check_cache(prog, report):
                  'every shipped closed curve has a constant repr distinct '
                  'from the others: %s' % names,
                  construct='curve reprs')
-    report.floor('R-cachekey', 9)
-    report.floor('R-cacheio', 7)
+    if estimator:
+        report.floor('R-cachekey', 8)
+        report.floor('R-cacheio', 2)
+    else:
+        report.floor('R-cachekey', 9)
+        report.floor('R-cacheio', 7)
 
 
 def _lossless_repr(node, need):
@@ -506,6 +523,132 @@ EVALUATORS = [
 ]
 
 
+def _dict_memo_store(node, attr):
+    """self.<attr>[key] = value"""
+    return isinstance(node, ast.Assign) and len(node.targets) == 1 and \
+        isinstance(node.targets[0], ast.Subscript) and text(
+            node.targets[0].value) == 'self.' + attr
+
+
+def _key_parts(k):
+    return list(k.elts) if isinstance(k, ast.Tuple) else [k]
+
+
+def _check_dict_memo(prog, report, fi, q, attr, node):
+    """A memo kept in a dictionary on the object.  (1) every lookup uses
+    the key the value is stored under; (2) the key identifies every
+    argument the value depends on: the argument itself, or its glob_idx
+    (then the uniqueness of indices over the mesh history becomes an
+    obligation of this property), never id() of an object the memo does not
+    keep alive, and not a mere attribute of it."""
+    from .flow import own_nodes
+    from . import meshrules
+    store_key = node.targets[0].slice
+    where = fi.where(node)
+    D = 'self.' + attr
+    lookups = []
+    for m in own_nodes(fi.node):
+        if isinstance(m, ast.Call) and isinstance(
+                m.func, ast.Attribute) and m.func.attr == 'get' and text(
+                    m.func.value) == D and m.args:
+            lookups.append(m.args[0])
+        elif isinstance(m, ast.Compare) and len(m.ops) == 1 and isinstance(
+                m.ops[0], (ast.In, ast.NotIn)) and text(
+                    m.comparators[0]) == D:
+            lookups.append(m.left)
+        elif isinstance(m, ast.Subscript) and isinstance(
+                m.ctx, ast.Load) and text(m.value) == D:
+            lookups.append(m.slice)
+    env = {}
+    for st in own_nodes(fi.node):
+        if isinstance(st, ast.Assign) and len(st.targets) == 1 and \
+                isinstance(st.targets[0], ast.Name):
+            env.setdefault(st.targets[0].id, st.value)
+
+    def norm(k):
+        from .absint import subst
+        return ast.dump(ast.Tuple(elts=[subst(x, env)
+                                        for x in _key_parts(k)],
+                                  ctx=ast.Load()))
+    if not lookups:
+        raise AnalysisError('%s: memo %s is written but never looked up '
+                            'in this routine' % (where, D))
+    bad = [text(k) for k in lookups if norm(k) != norm(store_key)]
+    report.check(
+        not bad, 'R-memo', '%s memo %s lookup key' % (q, D), where,
+        'the value is stored under `%s`; every lookup must use the same '
+        'key (found %s): otherwise a value computed for other arguments is '
+        'returned' % (text(store_key), bad or 'the same key'),
+        construct='%s: memo %s looked up under another key' % (q, D))
+    params = [p_ for p_ in fi.params if p_ != 'self']
+    from .absint import subst
+    parts = [subst(x, env) for x in _key_parts(store_key)]
+    need_unique = False
+    for p_ in params:
+        # how does the key speak about parameter p_?
+        modes = set()
+        for part in parts:
+            for m in ast.walk(part):
+                if isinstance(m, ast.Name) and m.id == p_:
+                    modes.add('attr')
+            if isinstance(part, ast.Name) and part.id == p_:
+                modes.add('self')
+            if isinstance(part, ast.Attribute) and isinstance(
+                    part.value, ast.Name) and part.value.id == p_ and \
+                    part.attr == 'glob_idx':
+                modes.add('index')
+            if isinstance(part, ast.Call) and text(part.func) == 'id' and \
+                    part.args and text(part.args[0]) == p_:
+                modes.add('id')
+        # does the stored value depend on p_ at all?
+        # does the stored value depend on p_ at all? (temporaries inlined)
+        full = {}
+        for st in own_nodes(fi.node):
+            if isinstance(st, ast.Assign) and len(st.targets) == 1 and \
+                    isinstance(st.targets[0], ast.Name):
+                full[st.targets[0].id] = st.value
+        seen_, todo_ = set(), [node.value]
+        used = False
+        while todo_:
+            e_ = todo_.pop()
+            for m in ast.walk(e_):
+                if isinstance(m, ast.Name):
+                    if m.id == p_:
+                        used = True
+                    elif m.id in full and m.id not in seen_:
+                        seen_.add(m.id)
+                        todo_.append(full[m.id])
+        if not used:
+            continue
+        if 'id' in modes:
+            report.violation(
+                'R-memo', '%s memo %s keyed on id(%s)' % (q, D, p_), where,
+                'id() of an object that the memo does not keep alive is '
+                'reused by later objects: the memo answers for a dead '
+                'argument', construct='%s: memo %s keyed on id()' % (q, D))
+        elif 'self' in modes:
+            report.ok('R-memo', '%s memo %s identifies %s' % (q, D, p_),
+                      where, 'the argument itself is part of the key')
+        elif 'index' in modes:
+            need_unique = True
+            report.ok('R-memo', '%s memo %s identifies %s by glob_idx' %
+                      (q, D, p_), where,
+                      'sound iff an index is never handed out twice over '
+                      'the history of the mesh (checked below)')
+        else:
+            report.violation(
+                'R-memo', '%s memo %s does not identify %s' % (q, D, p_),
+                where, 'the stored value depends on the argument `%s` but '
+                'the key `%s` %s: a later call with another %s is answered '
+                'from the memo' % (p_, text(store_key),
+                                   'only mentions some of its attributes'
+                                   if 'attr' in modes else
+                                   'does not mention it', p_),
+                construct='%s: memo %s key misses %s' % (q, D, p_))
+    if need_unique:
+        meshrules.check_leafbook(prog, report)
+
+
 def check_memo(prog, report, files=None):
     """An evaluation routine that stores to `self` keeps a memo.  A memo of
     the recognised shape `self.A = (key, values...)` guarded by a comparison
@@ -541,6 +684,9 @@ def check_memo(prog, report, files=None):
                       'depends on its arguments only')
             continue
         for attr, node in stores:
+            if _dict_memo_store(node, attr):
+                _check_dict_memo(prog, report, fi, q, attr, node)
+                continue
             if not (isinstance(node, ast.Assign) and isinstance(
                     node.value, ast.Tuple) and len(node.value.elts) >= 2
                     and isinstance(node.targets[0], ast.Attribute)):
